@@ -224,6 +224,9 @@ func (api *HTTP) handleStatus(res http.ResponseWriter, req *http.Request) {
 		return
 	}
 
+	// GetSessions takes sessionsMu: call it before taking ConfigMu, the state
+	// machine takes the two in that order as well.
+	sessions := api.ircServer().GetSessions()
 	api.ircServer().ConfigMu.RLock()
 	defer api.ircServer().ConfigMu.RUnlock()
 	args := struct {
@@ -242,7 +245,7 @@ func (api *HTTP) handleStatus(res http.ResponseWriter, req *http.Request) {
 		Leader:             string(api.raftNode.Leader()),
 		Peers:              p,
 		Stats:              api.raftNode.Stats(),
-		Sessions:           api.ircServer().GetSessions(),
+		Sessions:           sessions,
 		GetMessageRequests: api.copyGetMessagesRequests(),
 		NetConfig:          api.ircServer().Config,
 		CurrentLink:        "/status",
